@@ -139,6 +139,15 @@ impl Property for C08 {
             x.update_range(lim.from, lim.to);
             ctx.class("limits reached through update_range (one bound per joint unchanged)");
             x
+        } else if c.history % 3 == 2 {
+            // the limits are given in degrees (what from_degrees stores is compared with the radian limits to 1e-12 below)
+            let x = rs_opw_kinematics::constraints::Constraints::from_degrees(std::array::from_fn(|k| lim.from[k].to_degrees()..=lim.to[k].to_degrees()), lim.weight);
+            if (0..6).all(|k| (x.from[k] - lim.from[k]).abs() <= 1e-12 && (x.to[k] - lim.to[k]).abs() <= 1e-12 && (lim.from[k] < lim.to[k]) == (x.from[k] < x.to[k]) && (lim.from[k] == lim.to[k]) == (x.from[k] == x.to[k])) {
+                ctx.class("limits given in degrees (from_degrees)");
+                x
+            } else {
+                lim.build()
+            }
         } else {
             lim.build()
         };
